@@ -191,3 +191,22 @@ func (n *node) hasFile() bool {
 	}
 	return false
 }
+
+// longTarget is a portable link target of exactly n bytes: a fixed prefix and
+// a one-byte tail, so that targets of different lengths share their prefixes
+// (lengths around the 128-byte initial readlink buffer, and the 247-byte
+// portability limit).
+func longTarget(n int) string { return strings.Repeat("p", n-1) + "z" }
+
+// longLinkTrees are additional C08 trees whose slot a holds (or contains) a
+// link with a target at the readlink buffer boundaries.
+func longLinkTrees() []*node {
+	var out []*node
+	for _, n := range []int{127, 128, 129, 200, 247} {
+		out = append(out, nD("a", nL(longTarget(n)), "b", nF(c2)))
+	}
+	for _, n := range []int{128, 200} {
+		out = append(out, nD("a", nD("x", nL(longTarget(n))), "b", nF(c2)))
+	}
+	return out
+}
